@@ -21,12 +21,15 @@ type funcPredicate struct {
 	stateChanged func(object ngftypes.ObjectType, nsname types.NamespacedName) bool
 }
 
-func (f funcPredicate) upsert(_, newObject client.Object) bool {
+func (f funcPredicate) upsert(oldObject, newObject client.Object) bool {
 	if newObject == nil {
 		panic("new object cannot be nil")
 	}
 
-	return f.stateChanged(newObject, client.ObjectKeyFromObject(newObject))
+	nsname := client.ObjectKeyFromObject(newObject)
+
+	// a change matters if the graph references the object as it was or as it is now
+	return f.stateChanged(newObject, nsname) || (oldObject != nil && f.stateChanged(oldObject, nsname))
 }
 
 func (f funcPredicate) delete(object ngftypes.ObjectType, nsname types.NamespacedName) bool {
